@@ -13,6 +13,7 @@ import (
 	"testing"
 	"time"
 	"verifharness/internal/metricsx"
+	"verifharness/internal/scen"
 
 	"pgregory.net/rapid"
 	"reservoir/cache"
@@ -328,4 +329,12 @@ func TestLogLevelFollows(t *testing.T) {
 	subLevel.CheckSalt(t, 4, ev.N(40, 2000), func(t *rapid.T) Levels {
 		return Levels{Seq: rapid.SliceOfN(rapid.SampledFrom([]string{"DEBUG", "INFO", "WARN", "ERROR", "DEBUG-4", "ERROR+4"}), 1, 5).Draw(t, "levels")}
 	})
+}
+
+var subPolicy = ev.Register("policy-live",
+	"1-6 accepted run-time changes of ignore_cache_control / force_default_max_age / default_max_age on a RUNNING proxy; after each change a fresh no-store resource and a fresh max-age=50 resource are requested twice; oracle: the no-store one is reused exactly when directives are ignored, the other one is a HIT whose ttl is about 50 s, or about the current default when the default is forced; non-trivial = >= 2 changes; distinct by change sequence",
+	scen.PolicyLive)
+
+func TestPolicyLive(t *testing.T) {
+	subPolicy.CheckSalt(t, 5, ev.N(60, 3000), scen.DrawPolicy)
 }
